@@ -156,6 +156,10 @@ func emitC15(w *CaseWriter, r *areq, tv *tsaVariant, behav string, val *fakeVali
 			}
 		}
 		noteCurrentCase(map[string]any{"labels": r.Labels, "media_type": mt, "tsa": label})
+		nEmitSign++
+		if nEmitSign%2 == 1 { // every other request travels as the copy WithContext makes
+			req = req.WithContext(context.WithValue(context.Background(), ctxKey{}, nEmitSign))
+		}
 		b, err := env.Sign(req)
 		switch {
 		case err != nil && b != nil:
